@@ -279,10 +279,12 @@ def slug(s):
     return re.sub(r"[^a-z0-9]+", "_", s.lower()).strip("_")[:60]
 
 
-def run_verus_file(path, workdir, timeout=900, rlimit=None):
+def run_verus_file(path, workdir, timeout=900, rlimit=None, seed=None):
     cmd = ["verus", path, "--output-json", "--time", "--multiple-errors", "5"]
     if rlimit:
         cmd += ["--rlimit", str(rlimit)]
+    if seed is not None:
+        cmd += ["--smt-option", "smt.random_seed=%d" % seed]
     cmd += ["--", "--error-format=json"]
     r = run(cmd, cwd=workdir, timeout=timeout, mem_gb=24)
     js = None
@@ -424,7 +426,21 @@ def run_unit(scratch, prop, unit, exp, tier):
     res["cmds"] += vac_res["cmds"]
     if not res["violations"] and not res["undecided"]:
         res["undecided"] += vac_res["undecided"]
-    res["unit_summary"] = [dict(unit=unit, vacuity=res["vacuity"], verus_verified=vresults.get("verified", 0), verus_errors=vresults.get("errors", 0),
+    # thorough tier: the same file is verified again under other Z3 random seeds; a proof that only goes through for
+    # some seeds is brittle: it is reported (undecided), never as a violation
+    res["seed_stability"] = None
+    if tier == "thorough" and not res["violations"] and not res["undecided"]:
+        bad = []
+        seeds = [7, 1234567]
+        for sd in seeds:
+            v2 = run_verus_file(src, wd, rlimit=vc.get("rlimit"), seed=sd)
+            ok2 = bool(v2["js"] and v2["js"].get("verification-results", {}).get("success")) and v2["rc"] == 0
+            if not ok2:
+                bad.append(sd)
+        res["seed_stability"] = dict(seeds=seeds, failed_seeds=bad)
+        if bad:
+            res["undecided"].append("engine V [%s]: the unit verifies with the default Z3 seed but not with seed(s) %s (brittle proof; no verdict)" % (unit, bad))
+    res["unit_summary"] = [dict(unit=unit, vacuity=res["vacuity"], seed_stability=res["seed_stability"], verus_verified=vresults.get("verified", 0), verus_errors=vresults.get("errors", 0),
                                 extracted_functions=len(info), smt_total_ms=js.get("times-ms", {}).get("smt", {}).get("total"),
                                 verus_total_ms=js.get("times-ms", {}).get("total"))]
     return res
